@@ -12,31 +12,46 @@ def prop(pid, built, category, technique, text, note, design_ref, reason_if_unbu
 
 ENUM = "exhaustive bounded enumeration of inputs on the real code against a cell-list reference model"
 
-prop("C01", False, "model_checking", ENUM, "", "", "4/C01")
-prop("C02", False, "model_checking", "explicit-state BFS over render/resize histories, real window + reference terminal", "", "", "4/C02")
-prop("C03", False, "model_checking", "explicit-state exploration of the decoder's decision tree", "", "", "4/C03")
-prop("C04", False, "model_checking", "explicit-state BFS over assignment histories against a reference grid", "", "", "4/C04")
-prop("C05", False, "model_checking", ENUM, "", "", "4/C05")
-prop("C06", False, "model_checking", ENUM, "", "", "4/C06")
-prop("C07", False, "model_checking", "explicit-state BFS over render histories, real window + reference terminal with scrollback", "", "", "4/C07")
-prop("C08", False, "model_checking", "stateless deviation-bounded exploration of schedules under a virtual kernel", "", "", "4/C08")
-prop("C09", True, "model_checking", ENUM,
-     "Every splice/append over a complete bounded universe of run layouts (0..k runs, empty runs, zero-run value) x 7 replacement "
-     "values x every range 0<=start<=end<=len+2 (and end omitted) is executed on the real FmtStr.splice and compared with list "
-     "slicing on the cell-list model; operand snapshots are compared before/after. Quick: k=3,L=2 (0.16 M cases); thorough: k=4,L=3 (8.9 M).",
-     "Trusted: alpha (cells read from .chunks), tied to the displayed string by C01; Python list slicing as the reference; nothing beyond the bounds "
-     "(run count > 4, run length > 3) is covered.", "4/C09")
-prop("C10", False, "model_checking", ENUM, "", "", "4/C10")
-prop("C11", False, "model_checking", ENUM, "", "", "4/C11")
-prop("C12", False, "fault_enumeration", "exhaustive crash-point / fault enumeration on a real pty", "", "", "4/C12")
-prop("C13", False, "model_checking", "stateless search over straight-line programs with interleaved observations", "", "", "4/C13")
-prop("C14", False, "model_checking", ENUM, "", "", "4/C14")
-prop("C15", False, "model_checking", ENUM, "", "", "4/C15")
-prop("C16", False, "model_checking", ENUM, "", "", "4/C16")
-prop("C17", False, "model_checking", ENUM, "", "", "4/C17")
-prop("C18", False, "model_checking", "exhaustive enumeration + explicit-state BFS of cursor bookkeeping", "", "", "4/C18")
-prop("C19", False, "model_checking", ENUM, "", "", "4/C19")
-prop("C20", False, "model_checking", "explicit-state exploration of the decoder's decision tree in all naming modes", "", "", "4/C20")
+T = {}
+T["C01"] = ("Every value of a complete bounded universe (all 59 049 single-run attribute assignments incl. explicit False x texts with newline/tab/wide/accented characters; all 5 184 True-sets next to a sharp 24-palette in both orders with/without an empty run; all 24^3 triples) is built through the public API, and str(f) is run through an independent SGR interpreter (and pyte): characters, per-character attributes, final state, absence of non-SGR bytes. 0.42 M (quick) / 0.92 M (thorough) values.",
+            "Trusted: mc/sgr.py as the terminal's SGR semantics (cross-checked with pyte on every printable-ASCII case); more than 3 runs follow by the per-run self-containedness that the check establishes (each run's string starts and ends in the default state).")
+T["C05"] = ("Round trip str()/from_str over the C01 universe with newline/tab/bracket texts, plus every string of the grammar T S T [S T [S T]] with S over all 651 SGR tokens of <=2 supported parameters (3 tokens: <=1 parameter quick, 12-code subset with <=2 thorough); the parsed cells are compared with what the independent SGR interpreter displays. 2.0 M strings quick.",
+            "Trusted: mc/sgr.py; False == absent; 8-bit CSI and unsupported codes are C17's subject.")
+T["C06"] = ("Every int index and every slice with bounds in [-len-2, len+2]+None on every value of U_layout (820 quick / 22 621 thorough), every repeat count 0..3, every ordered pair of the 820-value universe for + (and str on either side), join of every list of <=3 items with 40+ separators; results compared with list indexing/slicing/concatenation on the cell model, IndexError parity with str, operands unchanged. 0.8 M / 8.8 M cases.",
+            "Trusted: Python list semantics as reference; slice steps and n*f are outside (documented as unsupported).")
+T["C09"] = ("Every splice/append over a complete bounded universe of run layouts (0..k runs, empty runs, zero-run value) x 7 replacement values x every range 0<=start<=end<=len+2 (and end omitted) is executed on the real FmtStr.splice and compared with list slicing on the cell-list model; operand snapshots are compared before/after. Quick: k=3,L=2 (0.16 M cases); thorough: k=4,L=3 (8.9 M).",
+            "Trusted: alpha (cells read from .chunks), tied to the displayed string by C01; Python list slicing as the reference; nothing beyond the bounds (run count > 4, run length > 3) is covered.")
+T["C10"] = ("Every string over {narrow, double-width, combining} of length <=4 (5 thorough, + CJK) in every cut into <=3 runs with empty runs: width, width_at_offset for every offset, width_aware_slice for every 0<=a<=b<=width+2, against an independent column-expansion model. 1.6 M / 9.2 M cases.",
+            "Trusted: the column widths 1/2/0 of the three alphabet characters (the width clause itself checks cwcwidth agrees). Zero-width characters are only required not to be invented and to stay with a wholly included base.")
+T["C11"] = ("Every string over {narrow, double-width, combining} of length <=5 (6 thorough) in every cut into <=3 runs, columns 2..5 (7): line widths, no empty line, losslessness after removing the permitted paddings, and line-by-line agreement with a greedy reference wrap; columns<2 must raise ValueError. 0.8 M / 1.5 M wraps.",
+            "Placement of zero-width characters at a break is free; zero-run value outside the quantifier.")
+T["C14"] = ("Every attribute value (28) in every spelling (positional, keyword name, number, style=, fmtfuncs helper, copy_with_new_atts) on every base (str + U_layout(2,2,P3)); every pair/triple of distinct kinds in one call (all positional/keyword mixes) and nested in every order, same-kind override, removal of every subset of <=2 names, shared_atts, copy_with_new_str, and a catalogue of 37 invalid + 7 wrong-case specifications that must raise ValueError. 0.11 M / 0.68 M applications.",
+            "False == absent; invalid specs checked through fmtstr() only.")
+T["C15"] = ("Every text over {a,B,-,space,newline} of length <=3 (4 thorough) in every cut into <=3 runs (+ longer texts in 2 runs, + a \\r/unicode line-boundary family): split with 7 separators and 4 regexes, splitlines with/without keepends, ljust/rjust for every width with/without fill, 59 delegated method/argument combinations; text, non-text answers and exception types must equal str's, pieces keep per-character formatting, delegated results carry the shared formatting and nothing alien. 7.2 M / 51 M calls.",
+            "split() without separator, maxsplit, encode/format are not checked; ljust/rjust without fill only 'same text, nothing alien' (existing tests pin the padding's formatting).")
+T["C16"] = ("Every string over {a,b,space,tab,newline} of length <=4 (5) as str and in every cut into <=3 runs, longer strings in 2 runs, columns 1..4 (6): compared line by line with a greedy reference wrap on cells, incl. the joining space's formatting rule, no edge whitespace, no-word inputs. 1.5 M / 28 M wraps.",
+            "len(), not display width; whitespace = str.isspace().")
+T["C17"] = ("Every string of length <=5 (6) over an 11-symbol alphabet of ordinary characters, newline, ESC, 8-bit CSI, '[', digit, ';', final and intermediate bytes (177 k / 1.95 M strings) plus 55 real-world samples: fmtstr/from_str must not raise, plain text comes back verbatim, the result's text is s with deletions only inside escape extents (alignment DP), numeric CSI sequences are removed exactly.",
+            "Escape extents per ECMA-48 (introducer + 0x20-0x3F bytes + one final byte); what happens inside an extent is not constrained.")
+T["C19"] = ("All ordered pairs over 977 values (3 400 thorough) incl. same-text/different-format and same-display/different-run-boundary twins and bold=False variants: ==, !=, symmetry, hash agreement, dict lookups; each value against a pool of plain str (texts and terminal strings) in both operand orders; repr round trip through eval for every value with >=1 run and quote/backslash/newline texts x 24 attribute sets. 1.06 M / 17 M comparisons.",
+            "No comparison with bytes.")
+BUILT = set(T)
+TECH = {
+ "C02": "explicit-state BFS over render/resize histories, real window + reference terminal",
+ "C03": "explicit-state exploration of the decoder's decision tree",
+ "C04": "explicit-state BFS over assignment histories against a reference grid",
+ "C07": "explicit-state BFS over render histories, real window + reference terminal with scrollback",
+ "C08": "stateless deviation-bounded exploration of schedules under a virtual kernel",
+ "C12": "exhaustive crash-point / fault enumeration on a real pty",
+ "C13": "stateless search over straight-line programs with interleaved observations",
+ "C18": "exhaustive enumeration + explicit-state BFS of cursor bookkeeping",
+ "C20": "explicit-state exploration of the decoder's decision tree in all naming modes",
+}
+CAT = {"C12": "fault_enumeration"}
+for i in range(1, 21):
+    pid = "C%02d" % i
+    text, note = T.get(pid, ("", ""))
+    prop(pid, pid in BUILT, CAT.get(pid, "model_checking"), TECH.get(pid, ENUM), text, note, "4/" + pid)
 
 def main():
     # allow overriding from a json side file so that the table above need not be edited for every change
